@@ -76,10 +76,13 @@ pub(crate) fn parse_values(
                     lit: Lit::Int(i), ..
                 }) = num
                 {
-                    if let Ok(mut i) = i.base10_parse::<i64>() {
-                        if negate {
-                            i = -i;
-                        }
+                    // parse the magnitude wide enough that `-9223372036854775808` (i64::MIN) is accepted
+                    let parsed = i
+                        .base10_parse::<i128>()
+                        .ok()
+                        .map(|i| if negate { -i } else { i })
+                        .and_then(|i| i64::try_from(i).ok());
+                    if let Some(i) = parsed {
                         if sorted.value && !values.is_empty() && i < last {
                             emit_error!(span, Error::FieldsNotValueSorted);
                         }
